@@ -426,6 +426,243 @@ func checkC13(c *core.Ctx, r *core.Report) {
 		}
 	}
 
+	// ---------------------------------------------------------------- (5b) composite lookup keys anywhere
+	// A key made by writing a number (an organisation id, a suffix) directly next to a variable string, with no literal
+	// between them, is ambiguous: (1, "2logs") and (12, "logs") collide.  For every string concatenation in the
+	// repository one of whose operands is a formatted integer (strconv.Itoa / FormatInt / FormatUint) and the other a
+	// non-constant string, the result is not used as the key of a map or sync.Map operation.
+	{
+		isNumStr := func(v ssa.Value) bool {
+			call, ok := v.(*ssa.Call)
+			if !ok {
+				return false
+			}
+			f := core.CalleeFunc(call)
+			return f != nil && f.Pkg() != nil && f.Pkg().Path() == "strconv" && (f.Name() == "Itoa" || f.Name() == "FormatInt" || f.Name() == "FormatUint")
+		}
+		usedAsKey := func(v ssa.Value) ssa.Instruction {
+			seen := map[ssa.Value]bool{}
+			var walk func(v ssa.Value, depth int) ssa.Instruction
+			walk = func(v ssa.Value, depth int) ssa.Instruction {
+				if seen[v] || depth > 4 || v.Referrers() == nil {
+					return nil
+				}
+				seen[v] = true
+				for _, u := range *v.Referrers() {
+					switch x := u.(type) {
+					case *ssa.Lookup:
+						if x.Index == v {
+							if _, isMap := x.X.Type().Underlying().(*types.Map); isMap {
+								return u
+							}
+						}
+					case *ssa.MapUpdate:
+						if x.Key == v {
+							return u
+						}
+					case *ssa.MakeInterface, *ssa.Phi, *ssa.ChangeType:
+						if k := walk(x.(ssa.Value), depth+1); k != nil {
+							return k
+						}
+					case ssa.CallInstruction:
+						f := core.CalleeFunc(x)
+						if f != nil && f.Pkg() != nil && f.Pkg().Path() == "sync" {
+							if sig, ok := f.Type().(*types.Signature); ok && sig.Recv() != nil && strings.HasSuffix(sig.Recv().Type().String(), "sync.Map") {
+								if args := x.Common().Args; len(args) >= 2 && args[1] == v {
+									return u
+								}
+							}
+						}
+						if bi, ok := x.Common().Value.(*ssa.Builtin); ok && bi.Name() == "delete" && len(x.Common().Args) == 2 && x.Common().Args[1] == v {
+							return u
+						}
+					}
+				}
+				return nil
+			}
+			return walk(v, 0)
+		}
+		nConcat, nBad := 0, 0
+		for _, fn := range c.RepoFunctions() {
+			k := 0
+			for _, b := range fn.Blocks {
+				for _, in := range b.Instrs {
+					bo, ok := in.(*ssa.BinOp)
+					if !ok || bo.Op != token.ADD || !(isNumStr(bo.X) || isNumStr(bo.Y)) {
+						continue
+					}
+					other := bo.X
+					if isNumStr(bo.X) {
+						other = bo.Y
+					}
+					if _, isK := other.(*ssa.Const); isK || isNumStr(other) && false {
+						continue
+					}
+					if !variablePart(other) {
+						continue
+					}
+					nConcat++
+					if at := usedAsKey(bo); at != nil {
+						k++
+						nBad++
+						r.Violation("KEYSEP", fmt.Sprintf("%s:composite-key#%d-has-a-separator", shortFn(fn), k), c.Pos(at.Pos()), "a lookup key is built by writing a formatted number directly next to a variable string: (1, \"2logs\") and (12, \"logs\") give the same key, so two organisations (or two suffixes) share one entry — e.g. one tenant's events are written into the other tenant's open segment")
+					}
+				}
+			}
+		}
+		r.Count("number_next_to_variable_string_concatenations", nConcat)
+		if nBad == 0 {
+			r.OK("KEYSEP", "no-ambiguous-composite-lookup-keys", "-", fmt.Sprintf("%d concatenations of a formatted number with a variable string, none used as a map key", nConcat))
+		}
+	}
+
+	// ---------------------------------------------------------------- (7) a wildcard expression selects by an anchored, quoted pattern
+	// In the index-expression expanders (virtualtable.ExpandAndReturnIndexNames for searches and deletes, the
+	// _resolve handler) a name enumerated from the tenant's tables is admitted by a wildcard expression only where a
+	// regular-expression match is known true, every function that the match call can invoke is a Match method of
+	// *regexp.Regexp, and each regular expression compiled in the function is "^" + P + "$" with
+	// P = ReplaceAll(QuoteMeta(expression), `\*`, ".*"): anchored at both ends, only "*" is a wildcard.
+	for _, ex := range []struct{ pkg, name string }{{"pkg/virtualtable", "ExpandAndReturnIndexNames"}, {"pkg/es/reader", "ExpandAndReturnIndexNames"}} {
+		fn := c.Fn(ex.pkg, ex.name)
+		name := shortFn(fn)
+		// (a) compiled patterns
+		nComp := 0
+		// the function and the helpers of its own package that it calls (the pattern may be built in a helper)
+		cone := []*ssa.Function{fn}
+		inCone := map[*ssa.Function]bool{fn: true}
+		for i := 0; i < len(cone) && i < 8; i++ {
+			for _, ci := range core.CallsIn(cone[i]) {
+				if callee := ci.Common().StaticCallee(); callee != nil && !inCone[callee] && core.FnPkgPath(callee) == core.FnPkgPath(fn) && callee.Blocks != nil {
+					for _, cc := range core.CallsIn(callee) {
+						if f := core.CalleeFunc(cc); f != nil && f.Pkg() != nil && f.Pkg().Path() == "regexp" {
+							inCone[callee] = true
+							cone = append(cone, callee)
+							break
+						}
+					}
+				}
+			}
+		}
+		var compiles []ssa.CallInstruction
+		for _, cf := range cone {
+			compiles = append(compiles, core.CallsIn(cf)...)
+		}
+		for _, ci := range compiles {
+			f := core.CalleeFunc(ci)
+			if f == nil || f.Pkg() == nil || f.Pkg().Path() != "regexp" || (f.Name() != "Compile" && f.Name() != "MustCompile") {
+				continue
+			}
+			nComp++
+			patternArg := ci.Common().Args[0]
+			// a helper that compiles its parameter: judge the argument of its (only) call in the cone
+			for hops := 0; hops < 3; hops++ {
+				par, ok := patternArg.(*ssa.Parameter)
+				if !ok {
+					break
+				}
+				var args []ssa.Value
+				for _, cf := range cone {
+					for _, cc := range core.CallsIn(cf) {
+						if cc.Common().StaticCallee() == par.Parent() {
+							for pi, q := range par.Parent().Params {
+								if q == par && pi < len(cc.Common().Args) {
+									args = append(args, cc.Common().Args[pi])
+								}
+							}
+						}
+					}
+				}
+				if len(args) != 1 {
+					break
+				}
+				patternArg = args[0]
+			}
+			parts := concatParts(patternArg, 0)
+			anchored := len(parts) >= 3
+			if anchored {
+				a, ok1 := core.ConstStringValue(parts[0])
+				z, ok2 := core.ConstStringValue(parts[len(parts)-1])
+				anchored = ok1 && ok2 && a == "^" && z == "$"
+			}
+			quoted := false
+			if anchored && len(parts) == 3 {
+				if call, ok := parts[1].(*ssa.Call); ok {
+					if rf := core.CalleeFunc(call); rf != nil && rf.Pkg() != nil && rf.Pkg().Path() == "strings" && rf.Name() == "ReplaceAll" {
+						old, ok1 := core.ConstStringValue(call.Call.Args[1])
+						nw, ok2 := core.ConstStringValue(call.Call.Args[2])
+						if q, ok := call.Call.Args[0].(*ssa.Call); ok && ok1 && ok2 && old == `\*` && nw == ".*" {
+							if qf := core.CalleeFunc(q); qf != nil && qf.Pkg() != nil && qf.Pkg().Path() == "regexp" && qf.Name() == "QuoteMeta" {
+								quoted = true
+							}
+						}
+					}
+				}
+			}
+			construct := fmt.Sprintf("%s:wildcard-pattern#%d-is-anchored-and-quoted", name, nComp)
+			switch {
+			case !anchored:
+				r.Violation("FILTER", construct, c.Pos(ci.Pos()), "the regular expression made from a wildcard index expression is not anchored with ^ and $: the expression selects every index that merely contains a match")
+			case !quoted:
+				r.Violation("FILTER", construct, c.Pos(ci.Pos()), "the wildcard index expression is not quoted (regexp.QuoteMeta) before its * are expanded: other metacharacters keep their regexp meaning (logs.app* also selects logsXapp1), so a search or delete touches indexes the expression does not name")
+			default:
+				r.OK("FILTER", construct, c.Pos(ci.Pos()), "^ + ReplaceAll(QuoteMeta(expression), `\\*`, `.*`) + $")
+			}
+		}
+		r.Floor("FILTER", "regular expressions compiled in "+name, nComp, 1)
+		// (b) admissions in loops over enumerated names are guarded by a regexp match
+		isRegexpMatch := func(callee *ssa.Function) bool {
+			if callee == nil || callee.Signature.Recv() == nil {
+				// bound method closures of go/ssa: Regexp.MatchString$bound
+				return callee != nil && strings.Contains(callee.String(), "regexp.Regexp).Match")
+			}
+			return strings.HasSuffix(callee.Signature.Recv().Type().String(), "regexp.Regexp") && strings.HasPrefix(callee.Name(), "Match")
+		}
+		var matchCalls []*ssa.Call
+		var otherGuards []*ssa.Call
+		for _, ci := range core.CallsIn(fn) {
+			call, ok := ci.(*ssa.Call)
+			if !ok {
+				continue
+			}
+			if rb, ok := call.Type().Underlying().(*types.Basic); !ok || rb.Kind() != types.Bool {
+				continue
+			}
+			if callee := call.Call.StaticCallee(); callee != nil {
+				if isRegexpMatch(callee) {
+					matchCalls = append(matchCalls, call)
+				}
+				continue
+			}
+			// dynamic call of a function value: all targets must be regexp matches
+			targets := funcValues(call.Call.Value)
+			all := len(targets) > 0
+			for _, t := range targets {
+				if !isRegexpMatch(t) {
+					all = false
+				}
+			}
+			if all {
+				matchCalls = append(matchCalls, call)
+			} else {
+				otherGuards = append(otherGuards, call)
+			}
+		}
+		nAdm := 0
+		for _, g := range otherGuards {
+			// a boolean function value that is not (only) a regexp match decides inside an enumeration loop
+			if lp := core.InnermostLoop(core.Loops(fn), g.Block()); lp != nil {
+				if _, isIf := core.LastIf(g.Block()); isIf || true {
+					nAdm++
+					r.Violation("FILTER", fmt.Sprintf("%s:name-admitted-by-a-regexp-match#%d", name, nAdm), c.Pos(g.Pos()), "inside the enumeration of the tenant's index / alias names the decision is taken by a function value that is not (only) a match of the anchored regular expression: a shortcut (prefix / suffix comparison) does not mean the same as the expression for expressions with several wildcards, so indexes the expression does not name are searched or deleted")
+				}
+			}
+		}
+		r.Floor("FILTER", "regexp matches deciding in "+name, len(matchCalls)+len(otherGuards), 2)
+		if nAdm == 0 {
+			r.OK("FILTER", name+":names-admitted-by-a-regexp-match", c.Pos(fn.Pos()), fmt.Sprintf("%d match calls, all of them (*regexp.Regexp).Match*", len(matchCalls)))
+		}
+	}
+
 	// ---------------------------------------------------------------- (6) an index is deleted for one tenant only
 	{
 		del := c.Fn("pkg/es/writer", "deleteIndex")
@@ -736,4 +973,12 @@ func elementOfSharedTable(c *core.Ctx, v ssa.Value) bool {
 		}
 	}
 	return false
+}
+
+// concatParts flattens a string concatenation a + b + c into its operands.
+func concatParts(v ssa.Value, depth int) []ssa.Value {
+	if bo, ok := v.(*ssa.BinOp); ok && bo.Op == token.ADD && depth < 8 {
+		return append(concatParts(bo.X, depth+1), concatParts(bo.Y, depth+1)...)
+	}
+	return []ssa.Value{v}
 }
